@@ -757,14 +757,14 @@ class PropSpace(Space):
 
     def describe(self, tier):
         return ("property lists attached to file / cell / CELLNAME record / RECTANGLE / POLYGON / PATH / TEXT / PLACEMENT / CIRCLE: every value type (8 real forms, "
-                "unsigned, signed, a-/b-/n-string inline and by PROPSTRING reference 13/14/15, extreme values), value counts 0,1,2,14,15,16 with 4-bit and explicit "
+                "unsigned, signed, a-/b-/n-string inline and by PROPSTRING reference 13/14/15, extreme values), value counts 0,1,2,13,14,15,16,17,40,130 with 4-bit and explicit "
                 "count, pairs and triples of properties with every subset of {name reuse (C=0), value-list reuse (V=1)} and record 29, names inline and by number")
 
     def lists(self):
         out = []
         for v in VALS:
             out.append(("type." + v[0] + "." + (str(v[1])[:12]), [P(b"pn", [v])], {}))
-        for n in (0, 1, 2, 14, 15, 16):
+        for n in (0, 1, 2, 13, 14, 15, 16, 17, 40, 130):
             vals = [VALS[i % len(VALS)] for i in range(n)]
             out.append(("count.%d" % n, [P(b"pc", vals)], {}))
             out.append(("count.%d.x" % n, [P(b"pc", vals)], {"explicit_count": True}))
@@ -1359,7 +1359,54 @@ class D2Options(D2Space):
         return out
 
 
-D2_SPACES = [D2Shapes, D2Elements, D2Options]
+def d2_values(n):
+    kinds = ["u:%d", "i:-%d", "r:0.5", "s:6162", "s:612062", "s:00ff%02x", "r:%d", "u:18446744073709551615"]
+    out = []
+    for i in range(n):
+        k = kinds[i % len(kinds)]
+        out.append(k % (i % 200) if "%" in k else k)
+    return " ".join(out)
+
+
+class D2PropCounts(D2Space):
+    """Value counts around the 4-bit UUUU field of the PROPERTY info byte (15 = explicit count follows)."""
+    name = "d2.propcounts"
+    COUNTS = (0, 1, 13, 14, 15, 16, 17, 40, 130)
+    TARGETS = ("library", "cell", "polygon", "flexpath", "label", "reference")
+
+    def ngroups(self, tier):
+        return len(self.COUNTS)
+
+    def describe(self, tier):
+        return ("property lists with %s values of mixed types (unsigned, signed, real, text, text with blanks, binary) on the library, a cell, a polygon, a simple "
+                "path, a label and a reference, alone and followed by a second property, x %d option sets") % (list(self.COUNTS), len(OPT_SMALL) if tier == "quick" else 12)
+
+    def cases(self, g, tier):
+        n = self.COUNTS[g]
+        out = []
+        opts = OPT_SMALL if tier == "quick" else [(lvl, fl, 0) for lvl in (0, 6, 9) for fl in (0, 0x0F, 0x3F | 0x40, 0x3F | 0x80)]
+        big = "big " + d2_values(n)
+        for tgt in self.TARGETS:
+            for second in (0, 1):
+                pc = ["prop " + big] + (["prop after u:7"] if second else [])
+                cmds = []
+                if tgt == "library":
+                    cmds += ["lib" + c for c in pc]
+                cmds.append("cell A")
+                if tgt == "cell":
+                    cmds += pc
+                for kind, ec in (("polygon", "poly 1 2 0,0 0.004,0 0.004,0.002"), ("flexpath", "fpath 1 1 2 0,0 5,0 1 2 0 0.1 0 flush 0 0"), ("label", "label 3 4 0.001,0.001 6869"),
+                                 ("reference", "ref B 0.004,-0.003 0 1 0")):
+                    cmds.append(ec)
+                    if tgt == kind:
+                        cmds += pc
+                cmds += ["cell B", "poly 0 0 0,0 0.004,0 0.004,0.002"]
+                for lvl, fl, tol in opts:
+                    out.append({"cmds": cmds, "level": lvl, "flags": fl, "tol": tol, "hints": {}, "label": {"target": tgt, "values": n, "second_property": second, "level": lvl, "flags": fl}})
+        return out
+
+
+D2_SPACES = [D2Shapes, D2Elements, D2PropCounts, D2Options]
 
 
 # ---------------------------------------------------------------------------- direction 2: model of the saved library
